@@ -1575,6 +1575,11 @@ func comparePaths(want, got []string, vcwd string, exists func(string) bool, not
 			return "leak", wl + "virtual-path", gl + c, why
 		}
 
+		if path.Dir(gn) == wn && gn != wn {
+			// (an entry of the directory the reference names)
+			return "differs", wl + "virtual-path", gl + "entry-of-virtual-path", why
+		}
+
 		return "differs", wl + "virtual-path", gl + "other-virtual-path", why
 	}
 
